@@ -2,13 +2,18 @@ import TaskModel.Sched.Model
 import TaskModel.Sched.Monitors
 import TaskModel.Sched.Verdicts
 import TaskModel.Sched.DeadlockLemmas
+import TaskModel.Sched.MonVal
 import Driver.Util
 /-!
 `sched.run F <cap|-> <parallel> <force> <forceAll> <yes> <maxCalls> <promptErr>
-           P <ntasks> { <ndeps> dep* <ncmds> cmd* <ignoreErr> <run> <internal> <platformOk> <requiresOk> <enumOk> <precondOk> <upToDate> <prompt> }*
+           P <ntasks> { <ndeps> dep* <ncmds> cmd* <ignoreErr> <run> <internal> <platformOk> <requiresOk> <enumOk> <precondOk> <upToDate> <prompt> <compileOk> }*
            C <ncalls> task*
+           V <ntasks> { <ndeps> pass* <ncmds> pass* }*          what every reference passes as variable V
            E <nevents> { <act> <ev> arg* }*
-           R <result>`
+           R <result>
+           O <nobs> { <act> <value> }*`                         the value of V the commands of an activation printed
+pass = `n` (nothing) | `l <n>` (literal) | `e` ({{.EXIT_CODE}}) | `o` (a variable of the referring task) | `w` (the referrer's own V);
+observed values: 0 nothing printed, 2n+3 the numeral n, 2t+2 LOCAL of task t.
 cmd = `s <code> <ignoreErr> <deferred>` | `c <target> <deferred>`;
 result = `ok` | `x<n>` | `ctx` | `t<code>` | `gen` | `r:<result>`.
 Answer: `accept <monitor verdicts>` | `reject step=<n> <label>` | `reject final <why>`.
@@ -64,8 +69,8 @@ def taskDef : P TaskDef := do
   let nc ← nat; let cmds ← many nc cmd
   let ignoreError ← bool; let run ← runMode; let internal ← bool
   let platformOk ← bool; let requiresOk ← bool; let enumOk ← bool
-  let precondOk ← bool; let upToDate ← bool; let prompt ← bool
-  pure { deps, cmds, ignoreError, run, internal, platformOk, requiresOk, enumOk, precondOk, upToDate, prompt }
+  let precondOk ← bool; let upToDate ← bool; let prompt ← bool; let compileOk ← bool
+  pure { deps, cmds, ignoreError, run, internal, platformOk, requiresOk, compileOk, enumOk, precondOk, upToDate, prompt }
 
 def flags : P Flags := do
   expect "F"
@@ -107,20 +112,34 @@ def event : P Label := do
     | _ => failure : P Ev)
   pure { act := a, ev }
 
+def pass : P Pass := do
+  let k ← tok
+  if k == "n" then pure .none else if k == "e" then pure .exitCode else if k == "o" then pure .local_
+  else if k == "w" then pure .own else if k == "l" then do let n ← nat; pure (.lit n) else failure
+
+def taskPasses : P TaskPasses := do
+  let nd ← nat; let deps ← many nd pass
+  let nc ← nat; let cmds ← many nc pass
+  pure { deps, cmds }
+
 structure Case where
   F : Flags
   prog : Program
   calls : List Nat
+  passes : Passes
   trace : List Label
   result : Res
+  obs : List (Nat × Nat)
 
 def parseCase : P Case := do
   let F ← flags
   expect "P"; let n ← nat; let prog ← many n taskDef
   expect "C"; let nc ← nat; let calls ← many nc nat
+  expect "V"; let nv ← nat; let passes ← many nv taskPasses
   expect "E"; let ne ← nat; let trace ← many ne event
   expect "R"; let result ← res
-  pure { F, prog, calls, trace, result }
+  expect "O"; let no ← nat; let obs ← many no (do let a ← nat; let v ← nat; pure (a, v))
+  pure { F, prog, calls, passes, trace, result, obs }
 
 /-- replay reporting the index of the first rejected label -/
 def replayIdx (Pg : Program) (F : Flags) : Config → List Label → Nat → Except Nat Config
@@ -137,7 +156,14 @@ def doRun (args : List String) : Option String := do
   -- (201 / the status with --exit-code) or as a typed error — never as a bare exit status (exit 1)
   -- and never doubly wrapped (201 even with --exit-code); no dependency reports a task-run error
   let c03s := statusMon cs.trace cs.result
-  let verdicts := monitorVerdicts2 cs.prog cs.F cs.calls cs.trace ++ (if c03s then " C03s=1" else " C03s=0")
+  -- C02 / C14 (values): every activation's commands saw the value its reference passed (a deferred call: the exit code);
+  -- C06 (keys): one key per `run: once` task / per (when_changed task, value), a key belongs to one task
+  let c02v := valMon cs.passes cs.prog cs.F cs.calls.length cs.trace cs.obs
+  let c06k := keyMon cs.passes cs.prog cs.F cs.calls.length cs.trace
+  let verdicts := monitorVerdicts2 cs.prog cs.F cs.calls cs.trace ++ (if c03s then " C03s=1" else " C03s=0") ++
+    (if c02v then " C02v=1" else " C02v=0") ++ (if c06k then " C06k=1" else " C06k=0") ++
+    -- C07 / C06 (call limit): an acyclic program never ends a call with "called too many times"
+    (if callLimitMon cs.prog cs.F cs.calls.length cs.trace then " C07a=1" else " C07a=0")
   match replayIdx cs.prog cs.F (init cs.calls.length) cs.trace 0 with
   | .error i => some s!"reject step={i} {verdicts}"
   | .ok c =>
